@@ -63,17 +63,21 @@ def worker(args):
             backend.POLICY.reset()
             E = harness.Env(True, cfg["key"], pid, tier=tier)
             E.max_replays = cfg.get("max_replays", 3)
+            if holder:
+                E.confirmed = holder[0].confirmed
             holder.append(E)
             mod.harness(E, cfg)
             if cfg.get("vacuity", True):
                 E.vacuity(cfg.get("vacuity_groups", ()))
             return None
 
+        budget = int(cfg.get("timeout_s", 150 if tier == "quick" else 1500))
         signal.signal(signal.SIGALRM, _alarm)
-        signal.alarm(int(cfg.get("timeout_s", 180 if tier == "quick" else 1500)))
+        signal.alarm(budget + 120)  # backstop only: the cooperative deadline below normally ends the run
         try:
             recs, ctx, complete = sym.explore(
                 run_path,
+                deadline=time.time() + budget,
                 mode=cfg.get("mode", "merge"),
                 max_paths=cfg.get("max_paths", 600 if tier == "quick" else 5000),
                 branch_timeout_ms=cfg.get("branch_timeout_ms", 3000),
@@ -243,6 +247,7 @@ def main(argv=None):
     agg_stats = {"unsat": 0, "sat": 0, "unknown": 0}
     solver_s = 0.0
     total_paths = 0
+    n_undefined = 0
     for r in results:
         total_paths += r.get("paths", 0)
         st = r.get("stats") or {}
@@ -261,11 +266,15 @@ def main(argv=None):
         real = [x for x in r["records"] if x["name"] != "__vacuity__"]
         if not real and not r.get("crash") and not r.get("allow_empty"):
             harness_errors.append(f"{r['key']}: no obligation reached (vacuous harness)")
+        undefined_paths = {tuple(x["path"]) for x in r["records"] if x["name"] == "__vacuity__" and x["verdict"] == "undefined-path"}
+        n_undefined += len(undefined_paths)
         for x in r["records"]:
             if x["name"] == "__vacuity__":
                 if x["verdict"] == "vacuous":
                     harness_errors.append(f"{r['key']}: assumptions unsatisfiable on path {x['path']}")
                 continue
+            if tuple(x["path"]) in undefined_paths:
+                continue  # the code divides by zero on this whole path: outside the claim
             n_obl += 1
             if x["verdict"] == "proved":
                 n_proved += 1
@@ -289,7 +298,11 @@ def main(argv=None):
             continue
         seen.add((key, name))
         print(f"INCONCLUSIVE property={pid} config={key} obligation={name} ({str(why)[:160]})")
+    printed = set()
     for key, x in violations:
+        if (key, x["name"]) in printed:
+            continue
+        printed.add((key, x["name"]))
         print(f"VIOLATION property={pid} replay={x.get('replay')} config={key} obligation={x['name']}")
         samples.append({"config": key, "obligation": x["name"], "verdict": "violated", "inputs": x.get("inputs"), "replay": x.get("replay")})
     for h in harness_errors:
@@ -313,6 +326,7 @@ def main(argv=None):
             "rule": "one evaluation = one configuration (entry point x option set x shape) executed symbolically over all feasible paths; non-trivial = at least one obligation reached; configurations are distinct by key",
             "configurations": len(results),
             "paths": total_paths,
+            "paths_outside_claim_division_by_zero": n_undefined,
             "queries_by_verdict": agg_stats,
             "solver_seconds": round(solver_s, 2),
             "checker_cmd": f"./check {pid} --tier {a.tier}",
